@@ -27,7 +27,8 @@ Inductive relation :=
 | RelLine (i : nat) (ts : Z) (l : bytes)            (* the entry with timestamp ts has line l *)
 | RelSpec (i : nat)                                 (* the result is exactly what Spec.LogSpec.spec_select says (distinct-free, no limit) *)
 | RelLabels (i : nat) (ts : Z) (ls : list (bytes * bytes))   (* the entry with timestamp ts carries exactly these labels (details masked) *)
-| RelError (i : nat).                               (* the evaluation is rejected with an error *)
+| RelError (i : nat)                                (* the evaluation is rejected with an error *)
+| RelTimestamps (i : nat) (tss : list Z).            (* exactly the entries with these timestamps (sorted, with multiplicity) are returned *)
 
 Record case := mk {
   orc : oracles;
@@ -198,6 +199,11 @@ Definition rel_ok (c : case) (r : relation) : bool :=
       | None => false
       end
   | RelError i => match nth_error (evals c) i with Some e => match ev_obs e with None => true | Some _ => false end | None => false end
+  | RelTimestamps i tss =>
+      match obs_at c i with
+      | Some a => list_eqb Z.eqb (map (fun e => e_ts e) (canon_obs a)) tss
+      | None => false
+      end
   end.
 
 Definition judge (c : case) : bool * bool * Z :=
